@@ -133,7 +133,8 @@ class MixedUnitaryChannel(raw_types.Gate):
         ]
         args = [f'mixture=[{", ".join(unitary_tuples)}]']
         if self._key is not None:
-            args.append(f'key=\'{self._key}\'')
+            # a key inside enclosing scopes cannot be given by its joined string
+            args.append(f'key={self._key!r}' if self._key.path else f'key=\'{self._key}\'')
         return f'cirq.MixedUnitaryChannel({", ".join(args)})'
 
     def _json_dict_(self) -> dict[str, Any]:
